@@ -8,6 +8,77 @@ RAN = ("validated in a scratch git worktree of /repo HEAD (/tmp/sv_<id>, removed
        "stable tests pass{extra}. Then `git -C /repo apply patch.diff`, `python -m allfedsa.cli <PID>`, `git -C /repo checkout -- .`.")
 
 SEEDS = {
+    "C03_1": dict(property="C03", summary="people-first ceiling merged into KCALS x (minimum/100) x min(round-1 %/100, 1)",
+                  needs="a minimum share below 100 % (the ..._after_10_percent_fed schedules) with the no-feed round under 100 %",
+                  caught_by=[("C03", "C03.MIN"), ("C18", "C18.CAP")], first_result="silent in the C03 check; caught by C18.CAP (same defect as C18_2)",
+                  strengthened="the ceiling evaluation is now also run under C03 (rule C03.MIN): the hand-off is an anchor of both properties"),
+    "C03_2": dict(property="C03", summary="get_biofuel_usage called with the feed shut-off month",
+                  needs="a schedule whose biofuel shut-off is earlier than the feed shut-off and a country with biofuel use",
+                  caught_by=[("C03", "C03.SHUT"), ("C03", "C03.ARGLANE")], first_result="caught as written (C03.SHUT)",
+                  strengthened="additionally reported by the new role-agreement rule (lanes.py): a feed-named value reaches a biofuel-named parameter"),
+    "C03_3": dict(property="C03", summary="when round 2 is abandoned the stand-in for its results carries the full biofuel demand into round 3",
+                  needs="the rarely taken abort branch (meat with feed < meat without) and non-zero biofuel use (KEN, MNG, MOZ, PAK)",
+                  caught_by=[("C03", "C03.SKIP")], first_result="missed",
+                  strengthened="new rule C03.SKIP: get_interpreted_results_for_round3_if_zero_feed is evaluated for each of its call sites; the "
+                               "biofuel (and, if written, feed) series of the stand-in must be the zero series"),
+    "C05_1": dict(property="C05", summary="round-3 milk computed from the round-1 (zero-feed) herd's milk-bearing animals",
+                  needs="feed granted in round 3 and a dairy herd that cannot live on grass alone (15 of 164 countries, e.g. GUY, IND, CHN)",
+                  caught_by=[("C05", "C05.MILK")], first_result="caught as written", strengthened=None),
+    "C05_2": dict(property="C05", summary="per-head meat constants cached per country in a module-level dict",
+                  needs="a second run of the same country in one process with a different kg_meat_per_large_animal (or other per-head override)",
+                  caught_by=[("C05", "C05.STATE"), ("C14", "C14.STATE")], first_result="C05: ANALYSIS-ERROR; C14: caught as written (shared-container rule)",
+                  strengthened="new rule C05.STATE (memo.hidden_state_rules over meat_and_dairy.py and parameters.py), evaluated before the formula rules"),
+    "C05_3": dict(property="C05", summary="round-3 feed charge relaxed from == to <= in the no-storage regime when culled meat is eaten",
+                  needs="no_stored_between_years regimes with cull: do_eat_culled and feed in use",
+                  caught_by=[("C01", "C01.FB_EQ")], first_result="silent in the C05 check (the LP row is C01's subject); caught as written by C01.FB_EQ",
+                  strengthened=None),
+    "C07_1": dict(property="C07", summary="feeding loop breaks once grass and feed are both used up; later species keep last month's fed count",
+                  needs="a history: a species served in one month, then a month where supplies run out before it is reached",
+                  caught_by=[("C07", "C07.PRIO")], first_result="caught as written", strengthened=None),
+    "C07_2": dict(property="C07", summary="`NE_from_feed >= NE_required` loosened to `>= NE_required * (1 - 1e-3)` while the full requirement is still charged",
+                  needs="remaining feed within the last 0.1 % below what a species still needs",
+                  caught_by=[("C07", "C07.RES"), ("C07", "C07.NE")], first_result="caught as written", strengthened=None),
+    "C07_3": dict(property="C07", summary="per-head requirement memoised on the object before the regional LSU factor is set",
+                  needs="the integrated-model call path (meat dict passed) and a species whose regional factor differs from 1",
+                  caught_by=[("C07", "C07.STATE"), ("C14", "C14.STATE")], first_result="missed",
+                  strengthened="new analysis memo.lazy_attribute_caches: a method that keeps its first result in self.X (hasattr / is None / __dict__ guard) "
+                               "while an attribute it is computed from is assigned outside __init__ and nothing resets X; used by C07.STATE, C06.STATE, C05.STATE, C14.STATE"),
+    "C10_1": dict(property="C10", summary="multiplier tables cached on Food.conversions, invalidated only when (kcals_monthly, population) changes",
+                  needs="requirements set twice with equal kcals and population but different fat/protein (nutrition: baseline then catastrophe)",
+                  caught_by=[("C10", "C10.PURE"), ("C14", "C14.RESET")], first_result="C10: ANALYSIS-ERROR; C14: caught as written",
+                  strengthened="new rule C10.PURE: table builders, get_conversion and in_units store nothing on self / the conversions object and are not memoised"),
+    "C10_2": dict(property="C10", summary="the ' per month' branch of in_units passes the protein and fat units to get_conversion in swapped order",
+                  needs="a scalar ' per month' quantity converted to different fat and protein units (no wrapper does that)",
+                  caught_by=[("C10", "C10.FORM"), ("C11", "C11.ARGLANE")], first_result="missed (only the wrappers were evaluated; they ask for the same unit for fat and protein)",
+                  strengthened="C10.FORM evaluates in_units itself for mixed unit triples in all three forms; new role-agreement rule C11.ARGLANE"),
+    "C10_3": dict(property="C10", summary="default diet on every UnitConversions instance + `self.kcals_daily` instead of the configured conversions object in one table entry",
+                  needs="a daily kcal requirement other than 2100 and a scalar ' per month' quantity in kcals per person per day",
+                  caught_by=[("C10", "C10.TABLE"), ("C10", "C10.ANCHOR")], first_result="caught as written", strengthened=None),
+    "C14_1": dict(property="C14", summary="lru_cache on the five animal CSV readers; the head-count override is written into the cached frame",
+                  needs="an earlier run in the same process with a *_head override, then a run of the same country",
+                  caught_by=[("C14", "C14.STATE"), ("C13", "C13.OVERRIDE")], first_result="caught (rule added after C13_3, same defect)", strengthened=None),
+    "C14_2": dict(property="C14", summary="alter_scenario_if_known_to_fail applies its correction to the caller's dictionary (scenario_option.update)",
+                  needs="ALB, SLV or ECU processed earlier in the same call than the observed country",
+                  caught_by=[("C14", "C14.FRESH"), ("C13", "C13.NOMUT")], first_result="silent in the C14 check; caught by C13.NOMUT",
+                  strengthened="C14.FRESH: no function that takes the scenario options may mutate them (the dictionary is shared by all countries of a simulation)"),
+    "C14_3": dict(property="C14", summary="enabled LP resources collected in a set comprehension and iterated: constraint order follows the per-process string hash",
+                  needs="fresh processes with different hash seeds and an LP with alternative optima (3 of 32 country/scenario pairs)",
+                  caught_by=[("C14", "C14.DET")], first_result="missed",
+                  strengthened="new analysis memo.set_order_dependence under C14.DET: for-loops, list/tuple/join/next(iter()) over set-valued expressions "
+                               "(sorted/min/max/len/dict- and set-building consumers are exempt)"),
+    "C17_1": dict(property="C17", summary="upper validity bound of the averaging helper written as a class constant 1e3 ('1000x') but compared with the percentage",
+                  needs="inputs in (1000, 1e5] percent (6 cells of the nuclear-winter import)",
+                  caught_by=[("C17", "C17.AVG")], first_result="ANALYSIS-ERROR (class-level constant not resolved)",
+                  strengthened="symx resolves class-level literal constants (Class.NAME, self.NAME)"),
+    "C17_2": dict(property="C17", summary="KOR/PRK iso-code correction collected in a new list that only the first table is taken from",
+                  needs="re-running the import: 44 columns of KOR and PRK are swapped, no assertion fails",
+                  caught_by=[("C17", "C17.WIRE")], first_result="missed",
+                  strengthened="new flow obligation in C17.WIRE: every table entering the merge list comes from the container the correction wrote into"),
+    "C17_3": dict(property="C17", summary="no-data sentinel replaced by -1 before the /100 scaling in a de-duplicating refactor of clean_up_nw_csv",
+                  needs="the eight countries without Rutgers data: -0.01 (1 % loss) instead of -1 (total loss)",
+                  caught_by=[("C17", "C17.NODATA")], first_result="missed",
+                  strengthened="new rule C17.NODATA: clean_up_nw_csv is evaluated elementwise for a symbolic cell; valid percentages must become x/100 and "
+                               "the helper's no-data value -1 in the final units, whatever the code shape"),
     "C01_1": dict(property="C01", summary="last-month link stored_food_start[N-1] == stored_food_end[N-2] indented under `optimization_type != 'to_animals'`",
                   needs="round 2 only, storage between years, last month, stored food binding for feed (GBR, LUX, JPN, USA)",
                   caught_by=[("C01", "C01.SF")], first_result="caught as written", strengthened=None),
